@@ -143,7 +143,7 @@ def enc_pairs(pairs):
 
 class C20:
     ID = "C20"
-    N_QUICK = 236
+    N_QUICK = 252
     N_THOROUGH = 2500
     N_SEARCH = 150
     RULE = ("1-D histograms (irregular / gapped bins, zeros, int and float contents, custom errors, name / title / axis name) x "
@@ -177,6 +177,13 @@ class C20:
             "member k's OWN bins -- as many marks as it has bins, at its edges / centres, with its widths, heights = its frequencies / "
             "densities / cumulative sums, error bars and value labels at its centres; a refusal of members with unequal bins is "
             "accepted and counted (the ASCII backend refuses collections: counted); one member is also sent through the model. "
+            "Every 16th case (k % 16 == 15, stream:prepared_axes) draws a matplotlib bar / step / line / scatter / fill / map / image / "
+            "bar3d (all their options above) into an ax= the caller prepared: an axes that already carries a title / x label / y label "
+            "(placeholders), an axes that holds an EARLIER physt plot of another histogram (with its own title / axis names / explicit "
+            "labels), one cell of a subplot grid, a twin axes: afterwards the title and axis labels of that axes are the explicit "
+            "title= / xlabel= / ylabel=, else the plotted histogram's title / axis names (pinned only where one of them exists), "
+            "whatever the axes carried before; the marks ADDED by the call are those of the histogram plotted (all clauses above, the "
+            "model included), and neither histogram is modified. "
             "non-trivial = non-zero contents; distinct = case hash")
     EXTRA_TRUST = ["matplotlib / plotly rendering, colour-map tables and layout are outside the model",
                    "the ASCII map's colours are read at the call of xtermcolor.colorize (replaced by a recorder while the map is printed)"]
@@ -187,7 +194,9 @@ class C20:
         # two streams take a fixed share of the case indices: helper objects reused across calls, derived histograms as plot inputs
         # (a third one, every 16th case (k % 16 == 7): collections whose adaptive members grew apart after the collection was made;
         #  N_QUICK was raised from 220 to 236 with it, so that the older streams keep their number of cases)
-        kind = "reuse" if k % 8 == 3 else "derived" if k % 8 == 5 else "grown" if k % 16 == 7 else rng.choice(KINDS)
+        # (a fourth one, every 16th case (k % 16 == 15): plots into axes that are not fresh; N_QUICK 236 -> 252 with it)
+        kind = ("reuse" if k % 8 == 3 else "derived" if k % 8 == 5 else "grown" if k % 16 == 7 else "prepared" if k % 16 == 15
+                else rng.choice(KINDS))
         c = getattr(self, "_gen_" + kind)(rng)
         c["tags"] = [t for t in dict.fromkeys(c["tags"])]
         return c
@@ -431,6 +440,72 @@ class C20:
             opt["transform"] = rng.choice([None, "shear"])
             tags += ["opt:z_" + opt["z"]] + (["opt:transform"] if opt["transform"] else [])
         return {"kind": "mpl3d", "init": init, "opt": opt, "tags": tags}
+
+    PREP_TEXTS = {"title": "placeholder title", "xlabel": "placeholder x", "ylabel": "placeholder y"}
+
+    def _gen_prepared(self, rng):
+        """a matplotlib plot (1-D kinds, map / image, bar3d) drawn into an axes the caller prepared (stream:prepared_axes)"""
+        dim = rng.choice([1, 1, 1, 2, 2, 3])
+        if dim == 1:
+            c = self._gen_mpl1(rng)
+            o = c["opt"]
+            # (ticks / scales / limits of an axes shared with other marks are matplotlib's business: the older streams cover them)
+            for k in ("ticks", "tick_handler", "xscale", "yscale", "xlim", "ylim"):
+                o[k] = None
+            o["show_stats"] = False
+            c["tags"] = [t for t in c["tags"] if not t.startswith(("opt:ticks", "opt:tick_handler", "opt:xscale", "opt:yscale", "opt:xlim",
+                                                                   "opt:ylim", "opt:show_stats"))]
+        elif dim == 2:
+            while True:
+                c = self._gen_mpl2(rng)
+                if c["opt"]["plot"] != "plotly_map":
+                    break
+            c["opt"]["show_colorbar"] = False
+            c["tags"] = [t for t in c["tags"] if t != "opt:show_colorbar"]
+        else:
+            while True:
+                c = self._gen_mpl3d(rng)
+                if c["opt"]["plot"] == "bar3d":
+                    break
+            c["opt"]["title"] = rng.choice([None, "Box title"])
+        mode = rng.choice(["labelled", "labelled", "earlier", "earlier", "grid", "twin"] if dim != 3 else ["labelled", "earlier", "grid"])
+        prep = {"mode": mode, "texts": {}}
+        if mode != "earlier":
+            texts = {k: (v if rng.random() < 0.75 else None) for k, v in self.PREP_TEXTS.items()}
+            if not any(texts.values()):
+                texts[rng.choice(sorted(texts))] = "placeholder"
+            prep["texts"] = texts
+        if mode == "grid":
+            prep["grid"] = rng.choice([[1, 2], [2, 1], [2, 2]])
+            prep["cell"] = rng.randrange(prep["grid"][0] * prep["grid"][1])
+            prep["suptitle"] = rng.random() < 0.3
+        elif mode == "twin":
+            prep["twin"] = rng.choice(["x", "y"])
+        elif mode == "earlier":
+            # the axes hold an earlier physt plot of ANOTHER histogram (its own title / names / explicit labels)
+            if dim == 1:
+                pairs, t = gen1.rising_bins(rng)
+                init = rand_hist_op(rng, pairs)
+                init["keep"] = True
+                plot = rng.choice(["bar", "line", "scatter", "fill"] + ([] if t["gapped"] else ["step"]))
+            elif dim == 2:
+                init, _ = rand_nd_op(rng, d=2, names=True)
+                plot = "map"
+            else:
+                while True:
+                    c0 = self._gen_mpl3d(rng)
+                    if c0["opt"]["plot"] == "bar3d":
+                        break
+                init, plot = c0["init"], "bar3d"
+            prep["first"] = {"init": init, "plot": plot, "title": rng.choice([None, "First title", "First title"]),
+                             "axis_name": rng.choice([None, "first axis"]) if dim == 1 else None,
+                             "title_arg": rng.choice([None, None, "first override"]), "xlabel_arg": rng.choice([None, None, "first xl"]),
+                             "ylabel_arg": rng.choice([None, "first yl"])}
+            if not (prep["first"]["title"] or prep["first"]["title_arg"]) and rng.random() < 0.7:
+                prep["first"]["title"] = "First title"
+        c["prep"] = prep
+        c["tags"] = ["stream:prepared_axes", "prep:" + mode, "prep:dim%d" % dim] + c["tags"]
+        return c
 
     def _gen_pair(self, rng):
         pairs, t = gen1.rising_bins(rng)
@@ -985,6 +1060,72 @@ class C20:
             src = Histogram2D(axes, f, errors2=e, missed=impl1.fl(init.get("missed", "0")), keep_missed=init.get("keep", True), **kw)
         return self._derive(src, spec.get("derive"), log), src
 
+    class _NewArtists:
+        """the artists of an axes that were not there before the call (everything else is passed through to the axes)"""
+        def __init__(self, ax, skip):
+            self._ax, self._skip = ax, skip
+
+        def __getattr__(self, name):
+            v = getattr(self._ax, name)
+            if name in ("patches", "lines", "collections", "texts", "images"):
+                return [a for a in v if id(a) not in self._skip]
+            return v
+
+    def _prep_axes(self, case, out):
+        """the axes a prepared-axes case draws into (None: the library makes its own), and the view of the artists the call adds"""
+        prep = case.get("prep")
+        if not prep:
+            return None
+        import matplotlib.pyplot as plt
+        sk = {"projection": "3d"} if case["kind"] == "mpl3d" else {}
+        mode = prep["mode"]
+        if mode == "grid":
+            fig, axs = plt.subplots(prep["grid"][0], prep["grid"][1], subplot_kw=sk, squeeze=False)
+            ax = axs.ravel()[prep["cell"]]
+            if prep.get("suptitle"):
+                fig.suptitle("figure title")
+        elif mode == "twin":
+            fig, base = plt.subplots()
+            base.set_title("base title"); base.set_xlabel("base x"); base.set_ylabel("base y")
+            ax = base.twinx() if prep["twin"] == "x" else base.twiny()
+        else:
+            fig = plt.figure()
+            ax = fig.add_subplot(111, **sk)
+        if mode == "earlier":
+            f = prep["first"]
+            nd = "axes" in f["init"]
+            st = (implnd if nd else impl1).Store()
+            (implnd if nd else impl1).step(st, f["init"], [])
+            h0 = st.get(0)
+            if f.get("title"):
+                h0.title = f["title"]
+            if f.get("axis_name"):
+                h0.axis_name = f["axis_name"]
+            snap = implnd.snapn if nd else impl1.snap1
+            before, meta = snap(h0), dict(h0.meta_data)
+            kw = {k: f[a] for k, a in (("title", "title_arg"), ("xlabel", "xlabel_arg"), ("ylabel", "ylabel_arg")) if f.get(a)}
+            h0.plot(f["plot"], backend="matplotlib", ax=ax, **kw)
+            self._first = (h0, snap, before, meta)
+        for k, v in prep["texts"].items():
+            if v:
+                getattr(ax, "set_" + k)(v)
+        out["prep_texts"] = {"title": ax.get_title(), "xlabel": ax.get_xlabel(), "ylabel": ax.get_ylabel()}
+        self._keep = list(ax.get_children())       # (kept alive: the ids below stay theirs)
+        return ax
+
+    def _prep_view(self, ax):
+        return ax if ax is None else self._NewArtists(ax, {id(a) for a in self._keep})
+
+    def _prep_done(self, case, out, ax, ret):
+        if ax is None:
+            return
+        out["same_axes"] = ret is ax
+        if case["prep"]["mode"] == "earlier":
+            h0, snap, before, meta = self._first
+            out["first_unchanged"] = snap(h0) == before and dict(h0.meta_data) == meta
+            out["first_title_meta"] = h0.title
+        self._first = None
+
     def run_impl(self, case):
         import matplotlib
         matplotlib.use("Agg")
@@ -992,6 +1133,7 @@ class C20:
         try:
             return getattr(self, "_run_" + {"refuse2": "refuse", "plotly1": "one", "mpl1": "one", "ascii": "one", "refuse": "one"}.get(case["kind"], case["kind"]))(case)
         finally:
+            self._first = self._keep = None
             plt.close("all")
 
     def _finish(self, out, hs, snaps, metas, snap, src=None):
@@ -1037,8 +1179,10 @@ class C20:
                 p = opt["plot"]
                 if call == "kind_none":
                     p = out["default_kind"] = self._default_kind("matplotlib", 1)
-                ax = self._call(h, call, p, "matplotlib", self._kwargs1(p, opt))
-                self._read1(ax, out, with_ticks=bool(opt.get("ticks") or opt.get("tick_handler")))
+                pax = self._prep_axes(case, out)
+                ax = self._call(h, call, p, "matplotlib", dict(self._kwargs1(p, opt), **({} if pax is None else {"ax": pax})))
+                self._prep_done(case, out, pax, ax)
+                self._read1(ax if pax is None else self._prep_view(pax), out, with_ticks=bool(opt.get("ticks") or opt.get("tick_handler")))
                 if opt.get("tick_handler") and opt["tick_handler"]["form"] == "auto":
                     from physt.plotting.common import TimeTickHandler
                     d = TimeTickHandler.deduce_level(*[float(Fraction(x)) for x in out["xlim"]])
@@ -1194,14 +1338,20 @@ class C20:
                         kw["x"] = fx
                     if fy:
                         kw["y"] = fy
-                ax = h.plot("map", backend="matplotlib", **kw)
+                pax = self._prep_axes(case, out)
+                ax = h.plot("map", backend="matplotlib", **dict(kw, **({} if pax is None else {"ax": pax})))
+                self._prep_done(case, out, pax, ax)
+                ax = ax if pax is None else self._prep_view(pax)
                 self._read_cells(ax, out)
                 out["title"] = ax.get_title(); out["xlabel"] = ax.get_xlabel(); out["ylabel"] = ax.get_ylabel()
             else:
                 kw = dict(density=opt["density"], show_colorbar=False, **lab)
                 if opt.get("interpolation"):
                     kw["interpolation"] = opt["interpolation"]
-                ax = h.plot("image", backend="matplotlib", **kw)
+                pax = self._prep_axes(case, out)
+                ax = h.plot("image", backend="matplotlib", **dict(kw, **({} if pax is None else {"ax": pax})))
+                self._prep_done(case, out, pax, ax)
+                ax = ax if pax is None else self._prep_view(pax)
                 im = ax.images[0]
                 out["image"] = {"extent": [nrs(x) for x in im.get_extent()], "array": [[nrs(v) for v in row] for row in np.asarray(im.get_array())]}
                 out["title"] = ax.get_title(); out["xlabel"] = ax.get_xlabel(); out["ylabel"] = ax.get_ylabel()
@@ -1259,13 +1409,18 @@ class C20:
             h = self._mk_special(case); src = src_before = h
         else:
             h, src = self._hist_nd(case, log); src_before = implnd.snapn(src)
+        if opt.get("title"):
+            h.title = opt["title"]
         before, meta = implnd.snapn(h), dict(h.meta_data)
         out = {"refused": {}}
         p = opt["plot"]
         try:
             if p == "bar3d":
                 lab = {k: opt[a] for k, a in (("title", "title_arg"), ("xlabel", "xlabel_arg"), ("ylabel", "ylabel_arg")) if opt.get(a)}
-                ax = h.plot("bar3d", backend="matplotlib", density=opt["density"], **lab)
+                pax = self._prep_axes(case, out)
+                ax = h.plot("bar3d", backend="matplotlib", density=opt["density"], **dict(lab, **({} if pax is None else {"ax": pax})))
+                self._prep_done(case, out, pax, ax)
+                ax = ax if pax is None else self._prep_view(pax)
                 out["boxes"] = self._boxes(ax.collections[0]) if len(ax.collections) == 1 else None
                 out["n_collections"] = len(ax.collections)
                 out["title"] = ax.get_title(); out["xlabel"] = ax.get_xlabel(); out["ylabel"] = ax.get_ylabel()
@@ -1835,14 +1990,16 @@ class C20:
                 if not (abs(lo_ - (dval - er)) <= etol and abs(hi_ - (dval + er)) <= etol):
                     fails.append(f"error_bars: error bar at {c} spans [{lo_}, {hi_}], expected value ± sqrt(errors2){'/size' if opt['density'] else ''} = [{dval - er}, {dval + er}]")
                     break
+        prep = self._prep_note(case, o)
         want_title = opt["title_arg"] or o["title_meta"] or ""
-        if o["title"] != want_title:
-            fails.append(f"title: plot title {o['title']!r}, expected {want_title!r}")
+        # (an axes the caller prepared keeps its texts where the histogram has none: pinned only with metadata / an override)
+        if o["title"] != want_title and (want_title or not prep):
+            fails.append(f"title: plot title {o['title']!r}, expected {want_title!r}{prep}")
         want_x = opt["xlabel_arg"] or o["axis_names"][0]
-        if o["xlabel"] != want_x:
-            fails.append(f"xlabel: {o['xlabel']!r}, expected {want_x!r}")
+        if o["xlabel"] != want_x and (want_x or not prep):
+            fails.append(f"xlabel: {o['xlabel']!r}, expected {want_x!r}{prep}")
         if opt.get("ylabel_arg") and o["ylabel"] != opt["ylabel_arg"]:
-            fails.append(f"ylabel: {o['ylabel']!r}, expected the given {opt['ylabel_arg']!r}")
+            fails.append(f"ylabel: {o['ylabel']!r}, expected the given {opt['ylabel_arg']!r}{prep}")
         if opt["show_values"] and p != "fill":
             fmt = value_formatter(opt.get("value_format"))[1]
             tx = [(ff(t[0]), ff(t[1]), t[2]) for t in o["texts"] if len(t) < 4 or t[3]]
@@ -1973,15 +2130,28 @@ class C20:
                     fails.append(f"plotly_map: {nm} coordinates {got} are not the bin {'edges' if consecutive else 'centres'} {want}")
 
     @staticmethod
+    def _prep_note(case, o):
+        """'' for a fresh axes, else a note on what the prepared axes carried before the call"""
+        if not case.get("prep") or "prep_texts" not in o:
+            return ""
+        t = o["prep_texts"]
+        return (f" [drawn into a prepared axes ({case['prep']['mode']}) that carried title {t['title']!r}, xlabel {t['xlabel']!r}, "
+                f"ylabel {t['ylabel']!r} before the call]")
+
+    @staticmethod
     def _or_labels2(opt, o, fails, what):
+        prep = ""
+        if "prep_texts" in o:
+            t = o["prep_texts"]
+            prep = f" [drawn into a prepared axes that carried title {t['title']!r}, xlabel {t['xlabel']!r}, ylabel {t['ylabel']!r} before the call]"
         wx = opt.get("xlabel_arg") or o["axis_names"][0]
         wy = opt.get("ylabel_arg") or o["axis_names"][1]
-        if o["xlabel"] != wx or o["ylabel"] != wy:
-            fails.append(f"{what}_labels: axis labels {o['xlabel']!r}, {o['ylabel']!r}, expected {wx!r}, {wy!r} (arguments, else the axis names {o['axis_names']})")
+        if (o["xlabel"] != wx and (wx or not prep)) or (o["ylabel"] != wy and (wy or not prep)):
+            fails.append(f"{what}_labels: axis labels {o['xlabel']!r}, {o['ylabel']!r}, expected {wx!r}, {wy!r} (arguments, else the axis names {o['axis_names']}){prep}")
         if "title" in o:
             wt = opt.get("title_arg") or o["title_meta"] or ""
-            if o["title"] != wt:
-                fails.append(f"title: {what} title {o['title']!r}, expected {wt!r}")
+            if o["title"] != wt and (wt or not prep):
+                fails.append(f"title: {what} title {o['title']!r}, expected {wt!r}{prep}")
 
     def _or_polar(self, case, o, fails):
         opt = case["opt"]
@@ -2291,6 +2461,10 @@ class C20:
                     fails.append(f"accepted_invalid: plot kind / backend '{name}' accepted for a {dim}-D histogram")
         if o.get("source_unchanged") is False:
             fails.append("histogram_modified: plotting a derived histogram changed the histogram it was derived from")
+        if o.get("first_unchanged") is False:
+            fails.append("histogram_modified: a second plot into the same axes changed the histogram plotted there first")
+        if o.get("same_axes") is False:
+            fails.append("prepared_axes: the plot did not go into (return) the axes given with ax=")
         if "plot_error" in o:
             if not (kind == "mpl2" and case["opt"]["plot"] == "image"):
                 fails.append("plot_raises: " + o["plot_error"])
@@ -2391,6 +2565,10 @@ class C20:
                 t.append("stream:grown_collection:plot_refused")
         if o.get("derive_log"):
             t.append("derive:refused")
+        if case.get("prep") and "prep_texts" in o:
+            t += ["prep:had_" + k for k, v in o["prep_texts"].items() if v]
+            if "plot_error" in o:
+                t.append("stream:prepared_axes:plot_refused")
         return t
 
     def matches_known(self, finding, case):
@@ -2453,6 +2631,17 @@ class C20:
                 c = copy.deepcopy(case)
                 (c["from2d"] if key else c)["layout"] = "C"
                 out.append(c)
+        if case.get("prep"):
+            # a prepared axes: one placeholder less (one stays), the earlier plot's own texts / overrides off one at a time
+            pr = case["prep"]
+            for k, v in pr["texts"].items():
+                if v and sum(1 for x in pr["texts"].values() if x) > 1:
+                    c = copy.deepcopy(case); c["prep"]["texts"][k] = None; out.append(c)
+            for k in ("title", "axis_name", "title_arg", "xlabel_arg", "ylabel_arg"):
+                if pr.get("first") and pr["first"].get(k):
+                    c = copy.deepcopy(case); c["prep"]["first"][k] = None; out.append(c)
+            if pr.get("suptitle"):
+                c = copy.deepcopy(case); c["prep"]["suptitle"] = False; out.append(c)
         opt = case.get("opt") or {}
         for k, v in opt.items():
             if k in ("plot", "bad", "call", "names", "width", "z") or not v:
